@@ -498,5 +498,8 @@ PROPS["C19"]["explanation"] += " (FABS) the absolute value of a floating-point d
 PROPS["C19"]["rules"] = PROPS["C19"]["rules"] + [rules_tools.rule_fmt_local_type]
 PROPS["C19"]["explanation"] += " (FMTTYPE) each hdp fmt<T> routine formats the value from a local of type T."
 
+PROPS["C11"]["rules"] = PROPS["C11"]["rules"] + [rules_ann.rule_pending_ref_checked]
+PROPS["C11"]["explanation"] += " (PENDINGREF) ANIcreate steps over references held by annotations that exist in memory only before it adds a new entry."
+
 NOT_APPLICABLE = {}
 
